@@ -41,7 +41,7 @@ PROPS = {
         "level": "proof",
         "quick": LEAF + UTIL + names("aead", ["enc", "dec"], ["grid"]) + ["spec.aead.rt", "spec.aead.rt2"],
         "thorough": LEAF + UTIL + names("aead", ["enc", "dec"], ["grid", "u", "ui"]) + ["spec.aead.rt", "spec.aead.rt2"],
-        "pre": [native.katcheck], "campaign": native.aead_campaign,
+        "pre": [native.katcheck], "campaign": native.huge_campaign("aead"),
         "text": "encrypt == SpecEnc and decrypt == SpecDec for the real tinyjambu_{128,192,256}_aead_{encrypt,decrypt} (spec monitor inside the permutation's contract stub; leaf functions under contracts; loop contracts close the data loops for all lengths in the thorough tier) + spec-level lemma SpecDec(SpecEnc(m)) = m with equal tags for every permutation; in-place variants with a load-before-store ghost check.",
         "note": "quick tier: AD loop (absorb), setup, tag, check_tag unbounded; the message loops of encrypt/decrypt are covered by the bounded grid (concrete lengths, symbolic data) and unbounded only in the thorough tier. " + MODULAR + ". Alignment: CBMC's memory model is alignment-insensitive (all accesses in these files are byte-wide). Compilers/optimisation levels not covered.",
         "technique": "CBMC contracts: spec monitor in callee contract stubs + loop contracts on the real loops",
@@ -61,7 +61,7 @@ PROPS = {
         "level": "proof",
         "quick": UTIL + LEAF + names("aead", ["dec"], ["grid", "short"]) + ["spec.aead.rt2"],
         "thorough": UTIL + LEAF + names("aead", ["dec"], ["grid", "short", "u"]) + ["spec.aead.rt2"],
-        "pre": [native.katcheck], "campaign": native.aead_campaign,
+        "pre": [native.katcheck], "campaign": native.huge_campaign("aead"),
         "text": "check_tag contract (0 iff all 8 bytes equal, else -1; complete over all 2^128 tag pairs; unbounded plaintext length) + decrypt == SpecDec with 'check_tag receives the specification's tag and the received tag, all 8 bytes' + lemma RT2 (the recomputed tag is the tag encryption yields for the recovered plaintext) + clen < 8: negative result, nothing written, no cipher call.",
         "note": "the 2^-64 forgery bound is a cryptographic property of the NLFSR and is not decided. (accum - 1) >> 8 on a negative int is implementation-defined (arithmetic shift assumed, as gcc/clang). Decrypt message loop unbounded only in the thorough tier. " + MODULAR,
         "technique": "CBMC function contract + loop contracts on check_tag; spec monitor for decrypt",
@@ -71,7 +71,7 @@ PROPS = {
         "level": "proof",
         "quick": UTIL + names("aead", ["dec"], ["grid"]) + names("siv", ["dec"], ["grid"]),
         "thorough": UTIL + names("aead", ["dec"], ["grid", "ui"]) + names("siv", ["dec"], ["grid", "ui"]),
-        "campaign": native.aead_campaign,
+        "campaign": native.huge_campaign("aead"),
         "text": "check_tag postcondition at an arbitrary ghost index: reject => byte is 0, accept => byte unchanged, for every plaintext length up to 2^40 (loop contract); the 6 decrypt functions pass the start of the plaintext buffer and the full length (asserted by the check_tag contract stub) and on reject every plaintext byte is 0.",
         "note": "the decrypt-side argument-passing obligation is checked on the bounded grid in the quick tier and unboundedly (loop contracts) in the thorough tier. " + MODULAR,
         "technique": "CBMC function contract with ghost index + loop contracts",
@@ -136,7 +136,7 @@ PROPS["C10"] = {
     "level": "proof",
     "quick": ["perm256.R20"] + HASH_Q,
     "thorough": ["perm256.R20"] + HASH_Q + ["hash.update.u", "hash.oneshot.grid"],
-    "pre": [native.katcheck], "campaign": native.lib_campaign("hash"),
+    "pre": [native.katcheck], "campaign": native.huge_campaign("hash"),
     "text": "real tinyjambu-hash.c == MDPH spec monitor (in the contract stub of tinyjambu_permutation_256): per 16-byte block two 2560-step encryptions under key R || M, inputs L^dom and L^dom^1, feed-forward XORs, 10* padding and domain 2 for the final block, output L || R little-endian; update from an ARBITRARY valid state; one-shot = init; update; finalize; free (call-sequence contract); composed with L0 (permutation_256, R = 20 == bit-serial NLFSR).",
     "note": "quick tier: update is covered by the bounded grid (posn x inlen shapes, every alignment, symbolic data); the unbounded loop-contract proof of hash_update for every inlen runs in the thorough tier. memcpy/memset are byte loops of our own (stubs/mem.c, trusted). Big-endian branch of hash_compress (#if !LW_UTIL_LITTLE_ENDIAN) is not compiled and not verified. Compilers/optimisation levels not covered.",
     "technique": "CBMC contracts: MDPH spec monitor in the permutation's contract stub + loop contract on hash_update",
@@ -146,7 +146,7 @@ PROPS["C11"] = {
     "level": "proof",
     "quick": HASH_Q,
     "thorough": HASH_Q + ["hash.update.u"],
-    "campaign": native.lib_campaign("hash"),
+    "campaign": native.huge_campaign("hash"),
     "text": "abstract-view contracts: update from an arbitrary valid state (any posn < 16, L, R, buffered bytes) advances the view by a byte-wise fold over its input (the monitor consumes bytes by its own cursor), hence any split into update calls gives the same view; init/reinit from arbitrary bytes establish the initial view completely; finalize = final(view); NULL/0 and empty updates leave the view unchanged; every function writes only its own state object (exact-size objects).",
     "note": "the induction over the call history (each operation verified for all valid pre-states; init establishes validity from arbitrary bytes) is the standard representation-invariant meta-step, stated, not re-checked by the tool. Quick tier: bounded (posn, inlen) grid incl. the 'top up, compress, continue' path; thorough tier: unbounded loop contract for every inlen.",
     "technique": "CBMC contracts with abstract view (representation invariant posn < 16) + loop contract",
@@ -165,8 +165,8 @@ L2NOTE = ("L2 is strictly modular: the hash API is replaced by its contract (stu
           "lengths) and complete in values (all bytes symbolic, every H); the scalar state machines are unbounded via loop contracts. ")
 PROPS["C12"] = {
     "level": "proof",
-    "quick": ["hmac.setkey.u", "hmac.finalize.u", "hmac.oneshot.seq"] + [n for n in JOBS if n.startswith("hmac.rfc2104.grid.")] + ["hash.update.grid", "hash.init", "hash.finalize"],
-    "thorough": ["hmac.setkey.u", "hmac.finalize.u", "hmac.oneshot.seq"] + [n for n in JOBS if n.startswith("hmac.rfc2104.grid")] + ["hash.update.grid", "hash.init", "hash.finalize", "hash.update.u"],
+    "quick": ["hmac.setkey.u", "hmac.reinit.u", "hmac.update.seq", "hmac.finalize.u", "hmac.oneshot.seq"] + [n for n in JOBS if n.startswith("hmac.rfc2104.grid.")] + ["hash.update.grid", "hash.init", "hash.finalize"],
+    "thorough": ["hmac.setkey.u", "hmac.reinit.u", "hmac.update.seq", "hmac.finalize.u", "hmac.oneshot.seq"] + [n for n in JOBS if n.startswith("hmac.rfc2104.grid")] + ["hash.update.grid", "hash.init", "hash.finalize", "hash.update.u"],
     "campaign": native.lib_campaign("hmac"),
     "text": "UNBOUNDED in the key length: hmac_init / hmac_finalize protocol contracts for every keylen (inner block K0 xor ipad, outer block K0 xor opad, inner digest fed to the outer hash, keys > 64 hashed whole once); hmac_update is a call-through to hash_update (any chunking: C11). Value level: real tinyjambu-hmac.c (one-shot, and init/update/reinit/update/update/finalize) over the hash API's contract == RFC 2104 (block 64, keys > 64 hashed first, key = 64 used as is, empty key) over the same arbitrary hash function H, on a grid of key/message lengths with all bytes symbolic; hmac_update is a call-through to hash_update, so any chunking of the message is covered by C11's unbounded update contract.",
     "note": L2NOTE + "Quick grid: key lengths {0,1,31,32,33,63,64,65,66,80,129} x message lengths {0,17} and {20,64,65} x {1,16,33,40}; thorough: every key length 0..130 and every message length 0..48. For keylen > 64 the code makes one hash_update(key, keylen) whatever the length, so longer keys differ only inside the hash.",
